@@ -794,6 +794,75 @@ end
 		}
 		b.WriteString("wg.wait\nprintln \"all\"\n")
 		p.Expect = append(p.Expect, "all")
+	case k < 10 && r.Chance(0.35):
+		// several threads run the same select expression at the same time, each over its own
+		// pair of pre-filled, closed channels: nobody may see a value of another thread, per
+		// channel order is preserved and every value arrives
+		p.Scenario = "selectmany"
+		nt := r.Range(2, 4)
+		cnt := r.Range(1, 4)
+		b.WriteString(`def drain(a: Channel[Int], b: Channel[Int], id: Int, wg: WaitGroup)
+  got := 0
+  foreign := 0
+  disorder := 0
+  lasta := 0 - 1
+  lastb := 0 - 1
+  more := true
+  while more
+    select
+    case r := <<a
+      if r.ok
+        v := r.unwrap
+        got = got + 1
+        foreign = foreign + 1 if v / 1000 != id
+        disorder = disorder + 1 if v <= lasta
+        lasta = v
+      else
+        more = false
+      end
+    case r := <<b
+      if r.ok
+        v := r.unwrap
+        got = got + 1
+        foreign = foreign + 1 if v / 1000 != id
+        disorder = disorder + 1 if v <= lastb
+        lastb = v
+      else
+        more = false
+      end
+    end
+  end
+  for v in a
+    got = got + 1
+    foreign = foreign + 1 if v / 1000 != id
+    disorder = disorder + 1 if v <= lasta
+    lasta = v
+  end
+  for v in b
+    got = got + 1
+    foreign = foreign + 1 if v / 1000 != id
+    disorder = disorder + 1 if v <= lastb
+    lastb = v
+  end
+  println "d${id}=${got}:${foreign}:${disorder}"
+  wg.end
+end
+
+`)
+		fmt.Fprintf(&b, "wg := WaitGroup(%d)\n", nt)
+		for i := 1; i <= nt; i++ {
+			fmt.Fprintf(&b, "ca%d := Channel::[Int](%d)\ncb%d := Channel::[Int](%d)\n", i, cnt, i, cnt)
+			for j := 0; j < cnt; j++ {
+				fmt.Fprintf(&b, "ca%d << %d\ncb%d << %d\n", i, i*1000+j, i, i*1000+500+j)
+			}
+			fmt.Fprintf(&b, "ca%d.close\ncb%d.close\n", i, i)
+		}
+		for i := 1; i <= nt; i++ {
+			fmt.Fprintf(&b, "go drain(ca%d, cb%d, %d, wg)\n", i, i, i)
+			p.Expect = append(p.Expect, fmt.Sprintf("d%d=%d:0:0", i, 2*cnt))
+		}
+		b.WriteString("wg.wait\nprintln \"end\"\n")
+		p.Expect = append(p.Expect, "end")
 	case k < 10 && r.Chance(0.5):
 		// one thread starts a wait group while others end it as eagerly as they can: an end at
 		// zero raises an error (caught, retried a bounded number of times); the counter moves
